@@ -312,7 +312,7 @@ func runC03(ctx *h.Ctx) int {
 			}
 		}
 		prog := g.Prog
-		src := spec.Source(prog)
+		src := layoutOf(k, prog, 0.15).Src
 		k.SetSource(src)
 		for _, opt := range []bool{true, false} {
 			res := h.Compile(src, optsOf(prog, opt))
